@@ -68,12 +68,18 @@ Lemma ditems_closed ap tn : forall items fields at_ names,
   ditems ap tn items fields at_ names =
     Some (fields ++ items_fields ap tn items, add_annos at_ (item_annos items), names ++ item_names items).
 Proof.
-  induction items as [|[f|a] r IH]; intros fields at_ names Hok Hnd; cbn [ditems items_fields item_annos item_names flat_map forallb] in *.
+  induction items as [|[f|a|n0 arr0 fs0] r IH]; intros fields at_ names Hok Hnd; cbn [ditems items_fields item_annos item_names flat_map forallb] in *.
   - rewrite !app_nil_r. reflexivity.
   - apply andb_true_iff in Hok as [Hf Hr]. cbn [item_ok] in Hf. rewrite (dfield_image _ _ _ Hf).
     cbn [List.app] in Hnd. rewrite (aset_fresh _ _ _ (nodup_head_fresh _ _ _ Hnd)).
     rewrite (IH _ _ _ Hr (nodup_shift _ _ _ _ Hnd)). cbn [List.app]. rewrite <- !app_assoc. reflexivity.
   - cbn [item_ok andb] in Hok. cbn [List.app] in *. rewrite (IH _ _ _ Hok Hnd). reflexivity.
+  - cbn [item_ok andb] in Hok. discriminate.
+Qed.
+Lemma item_ok_no_tuple items : forallb item_ok items = true -> forallb no_tuple items = true.
+Proof.
+  induction items as [|i r IH]; cbn [forallb]; [reflexivity|]. intros H. apply andb_true_iff in H as [Hi Hr].
+  rewrite (IH Hr). destruct i; cbn [item_ok] in Hi; try discriminate; reflexivity.
 Qed.
 
 Lemma dunion_members_image ap n : forall ms,
@@ -125,8 +131,9 @@ Proof.
     cbn [member_ok] in Hok. apply andb_true_iff in Hok as [Hitems Hnd].
     cbn [ep_image opt_list add_annos fold_left]. cbn [mem_mixins]. rewrite !app_nil_r.
     specialize (Ht _ _ eq_refl). unfold dtable. rewrite Ht.
+    rewrite (items_ntypes_none ap n items _ (item_ok_no_tuple _ Hitems)).
     rewrite (ditems_closed ap n items [] _ [] Hitems); [|cbn [keys map List.app]; apply nodupb_NoDup, Hnd].
-    cbn [List.app negb type_image opt_list]. unfold put_type, set_types.
+    cbn [List.app negb type_image opt_list]. unfold put_type, set_types. cbn [a_types a_parts a_long a_attrs a_eps a_mixins].
     rewrite (aset_fresh _ _ _ Ht). destruct w; reflexivity.
   - (* !enum *)
     cbn [ep_image opt_list add_annos fold_left type_image]. cbn [mem_mixins]. rewrite !app_nil_r. unfold denum. fold (valid_items items).
